@@ -193,7 +193,8 @@ Proof.
     intros H. apply frameb_frame in H. eapply ok_asg; eassumption.
   - intros H. inversion H; subst; try discriminate.
     assert (x0 = x) by congruence. subst.
-    rewrite H1, H2. apply frameb_frame. assumption.
+    repeat match goal with Ha : find x _ = Some _ |- _ => rewrite Ha; clear Ha end.
+    apply frameb_frame. assumption.
 Qed.
 
 Theorem step_okb_ok T st ok T' : step_okb T st ok T' = true <-> step_ok T st ok T'.
@@ -256,7 +257,7 @@ Theorem defined_value_forever T x e T1 tr v :
   trace_ok T ((SDef false x e, true, T1) :: tr) -> seval T e = Some v ->
   Forall (fun T' => find x T' = Some (false, v)) (T1 :: states tr).
 Proof.
-  intros [H1 H2] Hv. inversion H1; subst.
+  intros [H1 H2] Hv. inversion H1; subst; [|discriminate].
   assert (v0 = v) by congruence. subst.
   constructor; [assumption | eapply immutable_forever; eassumption].
 Qed.
@@ -313,3 +314,510 @@ Proof.
   - destruct (find_cfg h os) as [cf|]; [|discriminate].
     destruct (classes cf store0 [] h os) as [[|id r]|]; discriminate.
 Qed.
+
+(* ================================================================== *)
+(* E. the heap model violates the property: one witness per class      *)
+(* ================================================================== *)
+Definition dz (z : Z) : dy := dnorm z 0.
+Definition refutes (id : string) (h : list stmt) : Prop :=
+  ~ trace_ok [] (impl_trace cfg_cur store0 h) /\
+  classes cfg_cur store0 [] h (model_obs cfg_cur h) = Some [id].
+
+Ltac refute := split; [intros H; apply trace_okb_ok in H; vm_compute in H; discriminate | vm_compute; reflexivity].
+
+(* a := 1 ; ~b := a ; b = 5      -- a becomes 5 *)
+Definition w_alias_define : list stmt :=
+  [SDef false "a" (ENum (dz 1)); SDef true "b" (EVar "a"); SAssign "b" (ENum (dz 5))].
+Lemma refuted_alias_define : refutes "alias-define" w_alias_define.
+Proof. refute. Qed.
+
+(* ~a := 1 ; t := (a, 2) ; a = 5  -- t becomes (5, 2) *)
+Definition w_alias_literal : list stmt :=
+  [SDef true "a" (ENum (dz 1)); SDef false "t" (ETup [AVar "a"; ANum (dz 2)]); SAssign "a" (ENum (dz 5))].
+Lemma refuted_alias_literal : refutes "alias-literal" w_alias_literal.
+Proof. refute. Qed.
+
+(* (p, q) := (1, 2)              -- p and q are mutable *)
+Definition w_destructure_mutable : list stmt :=
+  [SDestr ["p"; "q"] (ETup [ANum (dz 1); ANum (dz 2)])].
+Lemma refuted_destructure_mutable : refutes "destructure-mutable" w_destructure_mutable.
+Proof. refute. Qed.
+
+(* a := 1 ; (p, a) := (1, 2)     -- error, but p stays defined *)
+Definition w_destructure_partial : list stmt :=
+  [SDef false "a" (ENum (dz 1)); SDestr ["p"; "a"] (ETup [ANum (dz 1); ANum (dz 2)])].
+Lemma refuted_destructure_partial : refutes "destructure-partial" w_destructure_partial.
+Proof. refute. Qed.
+
+(* ~t := | fa<f64> | 1 | 2 | ; t.fa = [5; 6; 7]   -- error, but the column is now 5 6 *)
+Definition w_table_column_partial : list stmt :=
+  [SDef true "t" (ETab [("fa", [dz 1; dz 2])]); SField "t" "fa" (EMat 3 1 [dz 5; dz 6; dz 7])].
+Lemma refuted_table_column_partial : refutes "table-column-partial" w_table_column_partial.
+Proof. refute. Qed.
+
+(* t := (1, 2) ; (p, q) := t ; p = 5   -- t becomes (5, 2); (the destructure itself is already a finding) *)
+Definition w_alias_destructure : list stmt :=
+  [SDef false "t" (ETup [ANum (dz 1); ANum (dz 2)]); SDestr ["p"; "q"] (EVar "t"); SAssign "p" (ENum (dz 5))].
+Lemma refuted_alias_destructure :
+  ~ trace_ok [] (impl_trace cfg_cur store0 w_alias_destructure) /\
+  classes cfg_cur store0 [] w_alias_destructure (model_obs cfg_cur w_alias_destructure)
+    = Some ["destructure-mutable"; "alias-destructure"].
+Proof. refute. Qed.
+
+(* ================================================================== *)
+(* F. outside the classes the heap model satisfies the property        *)
+(* ================================================================== *)
+Section value_ind'.
+  Variable P : value -> Prop.
+  Hypothesis HC : forall c, P (VC c).
+  Hypothesis HS : forall i l, P (VSet i l).
+  Hypothesis HT : forall i l, Forall P l -> P (VTup i l).
+  Hypothesis HR : forall i l, Forall (fun p => P (snd p)) l -> P (VRec i l).
+  Hypothesis HF : forall v, P v -> P (VRef v).
+  Fixpoint value_ind' (v : value) : P v :=
+    match v with
+    | VC c => HC c
+    | VSet i l => HS i l
+    | VTup i l =>
+        HT i l ((fix go (l : list value) : Forall P l :=
+                   match l with
+                   | [] => Forall_nil _
+                   | w :: r => Forall_cons w (value_ind' w) (go r)
+                   end) l)
+    | VRec i l =>
+        HR i l ((fix go (l : list (string * value)) : Forall (fun p => P (snd p)) l :=
+                   match l with
+                   | [] => Forall_nil _
+                   | (f, w) :: r => Forall_cons (f, w) (value_ind' w) (go r)
+                   end) l)
+    | VRef w => HF w (value_ind' w)
+    end.
+End value_ind'.
+
+(* a value looks the same in two heaps that agree on the cells it reaches *)
+Lemma snap_agree v : forall cs cs',
+  (forall c, In c (cells_of v) -> findn c cs' = findn c cs) -> snap cs' v = snap cs v.
+Proof.
+  induction v as [c|i l|i l IH|i l IH|v IH] using value_ind'; intros cs cs' H; cbn [snap].
+  - unfold get. rewrite H; [reflexivity | cbn; auto].
+  - reflexivity.
+  - f_equal. cbn [cells_of] in H. induction l as [|w l IHl]; [reflexivity|].
+    inversion IH; subst. cbn [map flat_map] in *. f_equal.
+    + apply H2. intros c Hc. apply H. apply in_or_app. auto.
+    + apply IHl; [assumption|]. intros c Hc. apply H. apply in_or_app. auto.
+  - f_equal. cbn [cells_of] in H. induction l as [|[f w] l IHl]; [reflexivity|].
+    inversion IH; subst. cbn [map flat_map snd] in *. f_equal.
+    + f_equal. apply H2. intros c Hc. apply H. apply in_or_app. auto.
+    + apply IHl; [assumption|]. intros c Hc. apply H. apply in_or_app. auto.
+  - apply IH. exact H.
+Qed.
+
+Lemma findn_write_other a d cs c : c <> a -> findn c (write a d cs) = findn c cs.
+Proof. intros H. unfold write. cbn. apply Nat.eqb_neq in H. rewrite H. reflexivity. Qed.
+
+Lemma snap_write_other a d cs v : ~ In a (cells_of v) -> snap (write a d cs) v = snap cs v.
+Proof. intros H. apply snap_agree. intros c Hc. apply findn_write_other. intros ->. contradiction. Qed.
+
+(* the second heap extends the first: every cell below n is as it was *)
+Definition heap_ext (n : nat) (cs cs' : list (nat * dv)) : Prop := forall c, c < n -> findn c cs' = findn c cs.
+
+Lemma heap_ext_refl n cs : heap_ext n cs cs.
+Proof. intros c _. reflexivity. Qed.
+Lemma heap_ext_trans n m a b c : n <= m -> heap_ext n a b -> heap_ext m b c -> heap_ext n a c.
+Proof. intros Hnm H1 H2 k Hk. rewrite H2 by lia. apply H1. exact Hk. Qed.
+
+Lemma snap_ext n cs cs' v : heap_ext n cs cs' -> (forall c, In c (cells_of v) -> c < n) -> snap cs' v = snap cs v.
+Proof. intros H Hv. apply snap_agree. intros c Hc. apply H. apply Hv. exact Hc. Qed.
+
+(* what evaluating a right-hand side does to the store, whatever the expression *)
+Definition grows (st s1 : store) : Prop :=
+  names s1 = names st /\ next st <= next s1 /\ heap_ext (next st) (cells st) (cells s1).
+
+Lemma grows_refl st : grows st st.
+Proof. split; [reflexivity|]. split; [lia | apply heap_ext_refl]. Qed.
+Lemma grows_trans a b c : grows a b -> grows b c -> grows a c.
+Proof.
+  intros [H1 [H2 H3]] [H4 [H5 H6]]. split; [congruence|]. split; [lia|].
+  eapply heap_ext_trans; eassumption.
+Qed.
+
+Lemma alloc_grows d st : grows st (snd (alloc d st)).
+Proof.
+  unfold grows, alloc; simpl. split; [reflexivity|]. split; [lia|].
+  intros c Hc. simpl. assert (E : Nat.eqb c (next st) = false) by (apply Nat.eqb_neq; lia). rewrite E. reflexivity.
+Qed.
+Lemma fresh_id_grows st : grows st (snd (fresh_id st)).
+Proof. unfold grows, fresh_id; simpl. split; [reflexivity|]. split; [lia | apply heap_ext_refl]. Qed.
+
+Lemma eval_atom_grows st a v s1 : eval_atom cfg_cur st a = Some (v, s1) -> grows st s1.
+Proof.
+  destruct a as [x|r c d|x]; cbn.
+  - intros H. inversion H; subst. apply (alloc_grows (DNum x) st).
+  - intros H. inversion H; subst. apply (alloc_grows (DMat r c d) st).
+  - destruct (find x (names st)) as [[[mu w] b]|]; [|discriminate]. intros H. inversion H; subst. apply grows_refl.
+Qed.
+
+Lemma eval_atoms_grows l : forall st vs s1, eval_atoms cfg_cur st l = Some (vs, s1) -> grows st s1.
+Proof.
+  induction l as [|a l IH]; intros st vs s1; cbn [eval_atoms].
+  - intros H. inversion H; subst. apply grows_refl.
+  - destruct (eval_atom cfg_cur st a) as [[v s0]|] eqn:Ea; [|discriminate].
+    destruct (eval_atoms cfg_cur s0 l) as [[ws s2]|] eqn:El; [|discriminate].
+    intros H. inversion H; subst. eapply grows_trans; [eapply eval_atom_grows; eassumption | eapply IH; eassumption].
+Qed.
+
+Lemma eval_expr_grows st e v s1 b : eval_expr cfg_cur st e = Some (v, s1, b) -> grows st s1.
+Proof.
+  destruct e as [x|r c d|l|cols|l|l|x]; cbn [eval_expr].
+  - intros H. inversion H; subst. apply (alloc_grows (DNum x) st).
+  - intros H. inversion H; subst. apply (alloc_grows (DMat r c d) st).
+  - intros H. inversion H; subst. apply (fresh_id_grows st).
+  - intros H. inversion H; subst. apply (alloc_grows (DTab cols) st).
+  - cbn. destruct (eval_atoms cfg_cur _ l) as [[vs s2]|] eqn:E; [|discriminate].
+    intros H. inversion H; subst. eapply grows_trans; [apply (fresh_id_grows st) | eapply eval_atoms_grows; exact E].
+  - cbn. destruct (eval_atoms cfg_cur _ (map snd l)) as [[vs s2]|] eqn:E; [|discriminate].
+    intros H. inversion H; subst. eapply grows_trans; [apply (fresh_id_grows st) | eapply eval_atoms_grows; exact E].
+  - destruct (find x (names st)) as [[[mu w] b']|]; [|discriminate]. intros H. inversion H; subst. apply grows_refl.
+Qed.
+
+(* ... and when it is a closed literal: everything it reaches is new, and it denotes the literal *)
+Definition closed_atom (a : atom) : Prop := match a with AVar _ => False | _ => True end.
+Definition closed_expr (e : expr) : Prop :=
+  match e with
+  | EVar _ => False
+  | ETup l => Forall closed_atom l
+  | ERec l => Forall closed_atom (map snd l)
+  | _ => True
+  end.
+Definition adv (a : atom) : dv :=
+  match a with ANum x => DNum x | AMat r c d => DMat r c d | AVar _ => DNum (0%Z, 0%Z) end.
+
+Definition new_in (st s1 : store) (cs : list nat) : Prop := forall c, In c cs -> next st <= c < next s1.
+
+Lemma get_alloc d st : get (next st) (cells (snd (alloc d st))) = d.
+Proof. unfold alloc, get; cbn. rewrite Nat.eqb_refl. reflexivity. Qed.
+
+Lemma eval_atom_closed T st a v s1 :
+  closed_atom a -> eval_atom cfg_cur st a = Some (v, s1) ->
+  new_in st s1 (cells_of v) /\ snap (cells s1) v = adv a /\ aeval T a = Some (adv a).
+Proof.
+  destruct a as [x|r c d|x]; cbn; intros Hc H; try contradiction; inversion H; subst; simpl; unfold new_in, get; simpl;
+    rewrite Nat.eqb_refl; (split; [intros c0 [<-|[]]; lia|]); split; reflexivity.
+Qed.
+
+Lemma eval_atoms_closed T l : forall st vs s1,
+  Forall closed_atom l -> eval_atoms cfg_cur st l = Some (vs, s1) ->
+  new_in st s1 (flat_map cells_of vs) /\ map (snap (cells s1)) vs = map adv l /\
+  map_opt (aeval T) l = Some (map adv l) /\ List.length vs = List.length l.
+Proof.
+  induction l as [|a l IH]; intros st vs s1 Hc; cbn [eval_atoms].
+  - intros H. inversion H; subst. cbn. split; [intros c0 []|]. repeat split.
+  - inversion Hc; subst.
+    destruct (eval_atom cfg_cur st a) as [[v s0]|] eqn:Ea; [|discriminate].
+    destruct (eval_atoms cfg_cur s0 l) as [[ws s2]|] eqn:El; [|discriminate].
+    intros H. inversion H; subst.
+    pose proof (eval_atom_grows _ _ _ _ Ea) as [_ [Hn0 _]].
+    pose proof (eval_atoms_grows _ _ _ _ El) as [_ [Hn1 Hx1]].
+    destruct (eval_atom_closed T _ _ _ _ H1 Ea) as [Hnew [Hs Ha]].
+    destruct (IH _ _ _ H2 El) as [Hnew' [Hs' [Ha' Hl]]].
+    split; [|split; [|split]].
+    + intros c Hin. cbn in Hin. apply in_app_or in Hin as [Hin|Hin]; [apply Hnew in Hin | apply Hnew' in Hin]; lia.
+    + cbn. f_equal; [|exact Hs']. rewrite <- Hs. eapply snap_ext; [exact Hx1|]. intros c Hin. apply Hnew in Hin. lia.
+    + cbn. rewrite Ha, Ha'. reflexivity.
+    + cbn. lia.
+Qed.
+
+Lemma combine_map_snd {A B C} (g : B -> C) (fs : list A) (vs : list B) :
+  map (fun p => (fst p, g (snd p))) (combine fs vs) = combine fs (map g vs).
+Proof. revert vs. induction fs as [|f fs IH]; intros [|v vs]; cbn; try reflexivity. f_equal. apply IH. Qed.
+
+Lemma combine_fst_snd {A B C} (g : B -> C) (l : list (A * B)) :
+  combine (map fst l) (map g (map snd l)) = map (fun p => (fst p, g (snd p))) l.
+Proof. induction l as [|[a b] l IH]; cbn; [reflexivity|]. f_equal. exact IH. Qed.
+
+Lemma flat_cells_combine (fs : list string) (vs : list value) :
+  List.length fs = List.length vs ->
+  flat_map (fun p : string * value => match p with (_, w) => cells_of w end) (combine fs vs) = flat_map cells_of vs.
+Proof.
+  revert vs. induction fs as [|f fs IH]; intros [|v vs] H; cbn in *; try reflexivity; try discriminate.
+  f_equal. apply IH. lia.
+Qed.
+
+Lemma map_opt_fields T (l : list (string * atom)) :
+  map_opt (aeval T) (map snd l) = Some (map adv (map snd l)) ->
+  map_opt (fun p => option_map (pair (fst p)) (aeval T (snd p))) l = Some (map (fun p => (fst p, adv (snd p))) l).
+Proof.
+  induction l as [|[f a] l IH]; cbn; [reflexivity|].
+  destruct (aeval T a) as [d|] eqn:Ea; [|discriminate].
+  destruct (map_opt (aeval T) (map snd l)) as [ds|] eqn:El; [|discriminate].
+  intros H. inversion H; subst. rewrite IH by reflexivity. cbn. reflexivity.
+Qed.
+
+Lemma eval_expr_closed T st e v s1 b :
+  closed_expr e -> eval_expr cfg_cur st e = Some (v, s1, b) ->
+  new_in st s1 (cells_of v) /\ seval T e = Some (snap (cells s1) v) /\ detach v = v /\ deref1 v = v.
+Proof.
+  destruct e as [x|r c d|l|cols|l|l|x]; cbn [eval_expr closed_expr]; intros Hc; try contradiction.
+  - intros H. inversion H; subst. simpl; unfold new_in, get; simpl. rewrite Nat.eqb_refl.
+    split; [intros c0 [<-|[]]; lia|]. repeat split.
+  - intros H. inversion H; subst. simpl; unfold new_in, get; simpl. rewrite Nat.eqb_refl.
+    split; [intros c0 [<-|[]]; lia|]. repeat split.
+  - intros H. inversion H; subst. unfold new_in; simpl. split; [intros c0 []|]. repeat split.
+  - intros H. inversion H; subst. simpl; unfold new_in, get; simpl. rewrite Nat.eqb_refl.
+    split; [intros c0 [<-|[]]; lia|]. repeat split.
+  - cbn. destruct (eval_atoms cfg_cur _ l) as [[vs s2]|] eqn:E; [|discriminate].
+    intros H. inversion H; subst.
+    destruct (eval_atoms_closed T _ _ _ _ Hc E) as [Hnew [Hs [Ha _]]].
+    split; [|split; [|split; reflexivity]].
+    + intros c Hin. cbn [cells_of] in Hin. apply Hnew in Hin. simpl in Hin. lia.
+    + cbn [seval snap]. rewrite Ha, Hs. reflexivity.
+  - cbn. destruct (eval_atoms cfg_cur _ (map snd l)) as [[vs s2]|] eqn:E; [|discriminate].
+    intros H. inversion H; subst.
+    destruct (eval_atoms_closed T _ _ _ _ Hc E) as [Hnew [Hs [Ha Hl]]].
+    rewrite map_length in Hl.
+    split; [|split; [|split; reflexivity]].
+    + intros c Hin. cbn [cells_of] in Hin. rewrite flat_cells_combine in Hin by (rewrite map_length; lia).
+      apply Hnew in Hin. simpl in Hin. lia.
+    + cbn [seval snap]. rewrite (map_opt_fields _ _ Ha). cbn. f_equal. f_equal.
+      rewrite <- combine_fst_snd, <- Hs, <- combine_map_snd.
+      apply map_ext. intros [f w]. reflexivity.
+Qed.
+
+(* the invariant of class-free runs: every name owns the cells its value reaches *)
+Record Inv (st : store) : Prop := {
+  inv_nd : NoDup (keys (names st));
+  inv_lt : forall x mu v b c, In (x, (mu, v, b)) (names st) -> In c (cells_of v) -> c < next st;
+  inv_nr : forall x mu v b, In (x, (mu, v, b)) (names st) -> deref1 v = v;
+  inv_sep : forall x y mu mu' v v' b b' c,
+      In (x, (mu, v, b)) (names st) -> In (y, (mu', v', b')) (names st) ->
+      In c (cells_of v) -> In c (cells_of v') -> x = y }.
+
+Lemma Inv0 : Inv store0.
+Proof. constructor; cbn; try constructor; intros; contradiction. Qed.
+
+Lemma find_snap_tab st x :
+  find x (snap_tab st) =
+  match find x (names st) with Some (mu, v, _) => Some (mu, snap (cells st) v) | None => None end.
+Proof.
+  unfold snap_tab. induction (names st) as [|[y [[mu v] b]] l IH]; cbn; [reflexivity|].
+  destruct (String.eqb x y); [reflexivity | exact IH].
+Qed.
+
+Lemma find_app_new {A} x (a : A) l : find x l = None -> find x (l ++ [(x, a)]) = Some a.
+Proof.
+  induction l as [|[y b] l IH]; cbn; [rewrite String.eqb_refl; reflexivity|].
+  destruct (String.eqb x y); [discriminate | exact IH].
+Qed.
+Lemma find_app_other {A} n x (a : A) l : n <> x -> find n (l ++ [(x, a)]) = find n l.
+Proof.
+  intros Hn. induction l as [|[y b] l IH]; cbn.
+  - apply String.eqb_neq in Hn. rewrite Hn. reflexivity.
+  - destruct (String.eqb n y); [reflexivity | exact IH].
+Qed.
+
+Lemma Inv_grows st s1 : Inv st -> grows st s1 -> Inv {| cells := cells s1; names := names st; next := next s1 |}.
+Proof.
+  intros [H1 H2 H3 H4] [_ [Hn _]]. constructor; cbn; try assumption.
+  intros x mu v b c Hin Hc. specialize (H2 _ _ _ _ _ Hin Hc). lia.
+Qed.
+
+(* a refused statement *)
+Lemma refused_ok st s : step_ok (snap_tab st) s false (snap_tab st).
+Proof. apply ok_err. intros n _. reflexivity. Qed.
+
+(* a name other than the owner of cell a keeps its snapshot when a is written in a grown heap *)
+Lemma other_names_keep st s1 x sink b0 a d n :
+  Inv st -> grows st s1 -> find x (names st) = Some (true, sink, b0) -> In a (cells_of sink) -> n <> x ->
+  find n (snap_tab {| cells := write a d (cells s1); names := names st; next := next s1 |}) = find n (snap_tab st).
+Proof.
+  intros HI [_ [_ Hx]] Hf Ha Hn. rewrite !find_snap_tab. cbn [names cells].
+  destruct (find n (names st)) as [[[mu v] b]|] eqn:E; [|reflexivity].
+  f_equal. f_equal. apply find_In in E. apply find_In in Hf.
+  rewrite snap_write_other.
+  - eapply snap_ext; [exact Hx|]. intros c Hc. eapply inv_lt; eassumption.
+  - intros Hin. apply Hn. eapply (inv_sep _ HI n x); eassumption.
+Qed.
+
+(* what a kernel may do: write one cell, and that cell belongs to the sink *)
+Definition kernel_ok (k : list (nat * dv) -> value -> kres) : Prop :=
+  forall cs sink a cs', deref1 sink = sink -> k cs sink = KOk a cs' ->
+    In a (cells_of sink) /\ exists d, cs' = write a d cs.
+
+Lemma assign_with_ok st s1 s x k :
+  Inv st -> grows st s1 -> assign_target s = Some x -> kernel_ok k ->
+  is_partial (assign_with st s1 x k) = false ->
+  step_ok (snap_tab st) s (snd (fst (assign_with st s1 x k))) (snap_tab (fst (fst (assign_with st s1 x k)))) /\
+  Inv (fst (fst (assign_with st s1 x k))).
+Proof.
+  intros HI Hg Hs Hk Hp. unfold assign_with, target in *.
+  destruct (find x (names st)) as [[[[|] sink] b0]|] eqn:Ef; cbn [fst snd]; try (split; [apply refused_ok | exact HI]).
+  destruct (k (cells s1) sink) as [|a cs'|a cs'] eqn:Ek; cbn [finish fst snd] in *; try (split; [apply refused_ok | exact HI]); try discriminate.
+  assert (Hd : deref1 sink = sink) by (apply find_In in Ef; eapply inv_nr; eassumption).
+  destruct (Hk _ _ _ _ Hd Ek) as [Ha [d ->]].
+  destruct Hg as [Hn [Hlt Hx]]. unfold set_cells. rewrite Hn. split.
+  - eapply ok_asg with (x := x).
+    + exact Hs.
+    + rewrite find_snap_tab, Ef. reflexivity.
+    + rewrite find_snap_tab. cbn [names]. rewrite Ef. reflexivity.
+    + intros n Hnin. eapply other_names_keep; try eassumption.
+      * split; [exact Hn|]. split; assumption.
+      * intros ->. apply Hnin. left. reflexivity.
+  - destruct HI as [H1 H2 H3 H4]. constructor; cbn; try assumption.
+    intros y mu v b c Hin Hc. specialize (H2 _ _ _ _ _ Hin Hc). lia.
+Qed.
+
+Lemma with_src_ok st s x e k :
+  Inv st -> assign_target s = Some x -> (forall src, kernel_ok (fun cs sink => k cs sink src)) ->
+  is_partial (with_src cfg_cur st e (fun src s1 => assign_with st s1 x (fun cs sink => k cs sink src))) = false ->
+  let r := with_src cfg_cur st e (fun src s1 => assign_with st s1 x (fun cs sink => k cs sink src)) in
+  step_ok (snap_tab st) s (snd (fst r)) (snap_tab (fst (fst r))) /\ Inv (fst (fst r)).
+Proof.
+  intros HI Hs Hk Hp. unfold with_src in *.
+  destruct (eval_expr cfg_cur st e) as [[[src s1] b]|] eqn:Ee; cbn [fst snd]; [|split; [apply refused_ok | exact HI]].
+  apply assign_with_ok; try assumption; [eapply eval_expr_grows; eassumption | apply Hk].
+Qed.
+
+(* the five kernels *)
+Ltac dmh := match goal with H : context [match ?x with _ => _ end] |- _ => destruct x eqn:?; try discriminate end.
+
+Lemma k_assign_ok src : kernel_ok (fun cs sink => k_assign cs sink src).
+Proof.
+  intros cs sink a cs' Hd H. unfold k_assign in H. rewrite Hd in H.
+  repeat dmh; inversion H; subst; (split; [cbn; auto | eexists; reflexivity]).
+Qed.
+
+Lemma k_idx_ok lin s : kernel_ok (fun cs sink => k_idx cs sink lin s).
+Proof.
+  intros cs sink a cs' Hd H. unfold k_idx in H. rewrite Hd in H.
+  repeat dmh; inversion H; subst; (split; [cbn; auto | eexists; reflexivity]).
+Qed.
+
+Lemma k_op_ok o src : kernel_ok (fun cs sink => k_op cs o sink src).
+Proof.
+  intros cs sink a cs' Hd H. unfold k_op in H. rewrite Hd in H.
+  repeat dmh; inversion H; subst; (split; [cbn; auto | eexists; reflexivity]).
+Qed.
+
+Lemma find_cells f (fs : list (string * value)) w c :
+  find f fs = Some w -> In c (cells_of w) ->
+  In c (flat_map (fun p : string * value => match p with (_, u) => cells_of u end) fs).
+Proof.
+  induction fs as [|[g u] fs IH]; cbn; [discriminate|].
+  destruct (String.eqb f g).
+  - intros H Hc. inversion H; subst. apply in_or_app. auto.
+  - intros H Hc. apply in_or_app. right. apply IH; assumption.
+Qed.
+
+Lemma nth_cells (l : list value) n w c : nth_error l n = Some w -> In c (cells_of w) -> In c (flat_map cells_of l).
+Proof.
+  revert n. induction l as [|u l IH]; intros [|n]; cbn; try discriminate.
+  - intros H Hc. inversion H; subst. apply in_or_app. auto.
+  - intros H Hc. apply in_or_app. right. eapply IH; eassumption.
+Qed.
+
+Lemma k_field_ok f src : kernel_ok (fun cs sink => k_field cfg_cur cs sink f src).
+Proof.
+  intros cs sink a cs' Hd H. unfold k_field in H. rewrite Hd in H. cbn [c_col_checked cfg_cur] in H.
+  destruct sink as [c|i l|i l|i fs|w]; try discriminate.
+  - repeat dmh; inversion H; subst; (split; [cbn; auto | eexists; reflexivity]).
+  - destruct (find f fs) as [[a0| | | |]|] eqn:Ef; try discriminate.
+    repeat dmh; inversion H; subst. split; [|eexists; reflexivity].
+    cbn [cells_of]. eapply find_cells; [exact Ef | cbn; auto].
+Qed.
+
+Lemma k_tix_ok k src : kernel_ok (fun cs sink => k_tix cs sink k src).
+Proof.
+  intros cs sink a cs' Hd H. unfold k_tix in H. rewrite Hd in H.
+  destruct (Z.leb k 0); [discriminate|].
+  destruct sink as [c|i l|i l|i fs|w]; try discriminate.
+  destruct (nth_error l (Z.to_nat (k - 1))) as [[a0| | | |]|] eqn:En; try discriminate.
+  repeat dmh; inversion H; subst. split; [|eexists; reflexivity].
+  cbn [cells_of]. eapply nth_cells; [exact En | cbn; auto].
+Qed.
+
+Lemma NoDup_app_one {A} (l : list A) (x : A) : NoDup l -> ~ In x l -> NoDup (l ++ [x]).
+Proof.
+  induction l as [|y l IH]; cbn; intros Hnd Hx; [constructor; [intros []|constructor]|].
+  inversion Hnd; subst. constructor.
+  - intros Hin. apply in_app_or in Hin as [Hin|[Hin|[]]]; [contradiction | subst; apply Hx; auto].
+  - apply IH; [assumption | intros Hin; apply Hx; auto].
+Qed.
+
+(* the statements of a class-free history *)
+Definition safe_stmt (s : stmt) : Prop :=
+  match s with
+  | SDef _ _ e => closed_expr e        (* no variable on the right of a definition: nothing is shared *)
+  | SDestr _ _ => False                (* every successful destructure is a finding *)
+  | _ => True
+  end.
+
+Lemma exec_safe_ok st s :
+  Inv st -> safe_stmt s -> is_partial (exec cfg_cur st s) = false ->
+  step_ok (snap_tab st) s (snd (exec_st cfg_cur st s)) (snap_tab (fst (exec_st cfg_cur st s))) /\
+  Inv (fst (exec_st cfg_cur st s)).
+Proof.
+  intros HI Hs Hp. unfold exec_st.
+  destruct (exec cfg_cur st s) as [[s2 ok] w] eqn:Ex. cbn [fst snd].
+  destruct s as [mu x e|x e|x i d|x i j d|x o e|x f e|x k e|xs e]; cbn [exec safe_stmt] in *; try contradiction.
+  - (* definition *)
+    destruct (find x (names st)) as [en|] eqn:Ef.
+    { inversion Ex; subst. split; [apply refused_ok | exact HI]. }
+    destruct (eval_expr cfg_cur st e) as [[[v s1] b]|] eqn:Ee.
+    2:{ inversion Ex; subst. split; [apply refused_ok | exact HI]. }
+    assert (Ex' : (add_name x (mu, detach v, b) s1, true, @None nat) = (s2, ok, w)).
+    { destruct e; try exact Ex. cbn in Hs. contradiction. }
+    clear Ex. inversion Ex'; subst. clear Ex'.
+    pose proof (eval_expr_grows _ _ _ _ _ Ee) as Hg.
+    destruct (eval_expr_closed (snap_tab st) _ _ _ _ _ Hs Ee) as [Hnew [Hse [Hdt Hdr]]].
+    destruct Hg as [Hn [Hlt Hx]]. rewrite Hdt. split.
+    + eapply ok_def.
+      * rewrite find_snap_tab, Ef. reflexivity.
+      * exact Hse.
+      * rewrite find_snap_tab. unfold add_name; cbn [names cells]. rewrite Hn, (find_app_new _ _ _ Ef). reflexivity.
+      * intros n Hnin. assert (Hne : n <> x) by (intros ->; apply Hnin; left; reflexivity).
+        rewrite !find_snap_tab. unfold add_name; cbn [names cells]. rewrite Hn, (find_app_other _ _ _ _ Hne).
+        destruct (find n (names st)) as [[[mu' v'] b']|] eqn:E; [|reflexivity].
+        f_equal. f_equal. eapply snap_ext; [exact Hx|]. intros c Hc. apply find_In in E. eapply inv_lt; eassumption.
+    + destruct HI as [H1 H2 H3 H4]. unfold add_name. constructor; cbn [names next cells]; rewrite Hn.
+      * unfold keys. rewrite map_app. cbn. apply NoDup_app_one; [exact H1|]. apply find_None. exact Ef.
+      * intros y mu' v' b' c Hin Hc. apply in_app_or in Hin as [Hin|[Hin|[]]].
+        -- specialize (H2 _ _ _ _ _ Hin Hc). lia.
+        -- inversion Hin; subst. apply Hnew in Hc. lia.
+      * intros y mu' v' b' Hin. apply in_app_or in Hin as [Hin|[Hin|[]]]; [eapply H3; eassumption|].
+        inversion Hin; subst. exact Hdr.
+      * intros y z mu1 mu2 v1 v2 b1 b2 c Hy Hz Hc1 Hc2.
+        apply in_app_or in Hy as [Hy|[Hy|[]]]; apply in_app_or in Hz as [Hz|[Hz|[]]].
+        -- eapply H4; eassumption.
+        -- inversion Hz; subst. specialize (H2 _ _ _ _ _ Hy Hc1). apply Hnew in Hc2. lia.
+        -- inversion Hy; subst. specialize (H2 _ _ _ _ _ Hz Hc2). apply Hnew in Hc1. lia.
+        -- inversion Hy; inversion Hz; subst. reflexivity.
+  - pose proof (with_src_ok st (SAssign x e) x e (fun cs sink src => k_assign cs sink src) HI eq_refl k_assign_ok) as H.
+    cbv beta zeta in H. rewrite Ex in H. apply H. exact Hp.
+  - pose proof (assign_with_ok st st (SIdx1 x i d) x _ HI (grows_refl st) eq_refl (k_idx_ok (lin1 i) d)) as H.
+    rewrite Ex in H. apply H. exact Hp.
+  - pose proof (assign_with_ok st st (SIdx2 x i j d) x _ HI (grows_refl st) eq_refl (k_idx_ok (lin2 i j) d)) as H.
+    rewrite Ex in H. apply H. exact Hp.
+  - pose proof (with_src_ok st (SOp x o e) x e (fun cs sink src => k_op cs o sink src) HI eq_refl (k_op_ok o)) as H.
+    cbv beta zeta in H. rewrite Ex in H. apply H. exact Hp.
+  - pose proof (with_src_ok st (SField x f e) x e (fun cs sink src => k_field cfg_cur cs sink f src) HI eq_refl (k_field_ok f)) as H.
+    cbv beta zeta in H. rewrite Ex in H. apply H. exact Hp.
+  - pose proof (with_src_ok st (STix x k e) x e (fun cs sink src => k_tix cs sink k src) HI eq_refl (k_tix_ok k)) as H.
+    cbv beta zeta in H. rewrite Ex in H. apply H. exact Hp.
+Qed.
+
+Theorem holds_from st h :
+  Inv st -> Forall safe_stmt h -> no_partial cfg_cur st h = true ->
+  trace_ok (snap_tab st) (impl_trace cfg_cur st h).
+Proof.
+  revert st. induction h as [|s r IH]; intros st HI Hs Hp; cbn [impl_trace]; [exact I|].
+  inversion Hs; subst. cbn [no_partial] in Hp. apply andb_prop in Hp as [Hp1 Hp2].
+  apply negb_true_iff in Hp1.
+  destruct (exec_safe_ok st s HI H1 Hp1) as [Hstep HI'].
+  destruct (exec_st cfg_cur st s) as [s1 ok] eqn:Ex. cbn [fst snd] in *.
+  split; [exact Hstep | apply IH; assumption].
+Qed.
+
+Theorem holds_class_free h :
+  Forall safe_stmt h -> no_partial cfg_cur store0 h = true ->
+  trace_ok [] (impl_trace cfg_cur store0 h).
+Proof. intros Hs Hp. apply (holds_from store0 h Inv0 Hs Hp). Qed.
